@@ -50,13 +50,15 @@ Proof. exact entries_owned. Qed.
 Print Assumptions C09_entries_owned.
 
 (* a delete leaves every other binding in place: in any state, the registry after a delete call
-   is the registry before, or the registry before minus the entries on the addressed
-   (client address, server feature) pair *)
+   is the registry before, or the registry before minus the entries OF THE CALLING CONNECTION on
+   the addressed (client address, server feature) pair ([hit_e (p_ski pe) ...]: since the
+   by-connection repair of RemoveBinding an entry of another peer is never removed, whatever
+   address the call names, also when both peers announce the same device address or none) *)
 Theorem C09_delete_exact : forall s p ctr ack c,
   let s1 := fst (step s (BindDelete p ctr ack c)) in
   binds s1 = binds s \/
   exists pe sf, sender_known s p = Some pe /\ local_feature s (rc_srv c) = Some sf /\
-    binds s1 = filter (fun x => negb (hit_e (default_dev pe (rc_cli c)) sf x)) (binds s).
+    binds s1 = filter (fun x => negb (hit_e (p_ski pe) (default_dev pe (rc_cli c)) sf x)) (binds s).
 Proof. exact delete_exact. Qed.
 Print Assumptions C09_delete_exact.
 
@@ -117,4 +119,21 @@ Example C09_nonvacuous :
       ([(2, 22, false)], []); ([(1, 15, true)], []);
       ([], [OEntry 3 (a (Some 0%N) [1%N] 1) (a (Some 2%N) [1%N] 1)]) ]%N /\
   accepted (judge minit (snd (run init c09_example))) = true.
+Proof. vm_compute. split; reflexivity. Qed.
+
+(* By-connection delete: peers 1 and 2 announce THE SAME device address; peer 2 binds c1->s1; peer
+   1's delete of exactly that (address-equal) pair is refused and peer 2's binding stays listed;
+   peer 2's own delete succeeds. *)
+Definition c09_twins : list op :=
+  [ AddLocalEntity [1%N]; AddLocalFeature [1%N] 1 RServer;
+    Connect 1; DiscoveryReply 1 (tree 1); Connect 2; DiscoveryReply 2 (tree 1);
+    BindCall 2 21 true (call 1 1 1 1); BindDelete 1 11 true (call 1 1 1 1); ListBinds 2;
+    BindDelete 2 22 true (call 1 1 1 1); ListBinds 2 ].
+Example C09_delete_by_connection :
+  map (fun x => (results (snd x), filter (fun o => match o with OEntry _ _ _ => true | _ => false end) (snd x)))
+      (skipn 6 (snd (run init c09_twins))) =
+    [ ([(2, 21, false)], []); ([(1, 11, true)], []);
+      ([], [OEntry 1 (a (Some 0%N) [1%N] 1) (a (Some 1%N) [1%N] 1)]);
+      ([(2, 22, false)], []); ([], []) ]%N /\
+  accepted (judge minit (snd (run init c09_twins))) = true.
 Proof. vm_compute. split; reflexivity. Qed.
